@@ -24,29 +24,6 @@ Proof.
       * rewrite firstn_length. split; lia.
 Qed.
 
-Section ReadSeq.
-Variable H : N -> N -> N -> bool -> list N -> list N.
-Variable L : nat.
-Hypothesis Lpos : 0 < L.
-Hypothesis H_len : forall l o d b x, length (H l o d b x) = KS.
-Hypothesis H_inj : forall l o d b x o' d' b' x',
-  H l o d b x = H l o' d' b' x' -> o = o' /\ d = d' /\ b = b' /\ x = x'.
-
-Variable s : bstore.
-Variable lv : list (list N).
-Hypothesis Hshape : shape L lv.
-Let n := length lv.
-
-(* reader state st, having delivered D so far, is consistent with the honest leaves lv *)
-Definition inv (st : rst) (D : list N) : Prop :=
-  let i := r_idx st in
-  i <= n /\ r_todo st = keys_of_leaves H L i (skipn i lv) /\
-  match r_cur st with
-  | None => r_leaf st = [] /\ D = concat (firstn i lv) /\ (r_last st = true -> i = n)
-  | Some rem => i < n /\ D = concat (firstn i lv) ++ r_leaf st /\
-                lookup (hkey H L i (nth i lv [])) s = Some (r_leaf st ++ rem)
-  end.
-
 Lemma skipn_cons_nth : forall (l : list (list N)) i, i < length l -> skipn i l = nth i l [] :: skipn (S i) l.
 Proof.
   induction l as [|x l IH]; intros i Hi; [cbn in Hi; lia|].
@@ -58,6 +35,29 @@ Proof.
   induction l as [|x l IH]; intros i Hi; [cbn in Hi; lia|].
   destruct i; [reflexivity|]. cbn [firstn nth app]. f_equal. apply IH. cbn in Hi. lia.
 Qed.
+
+Section ReadSeq.
+Variable H : N -> N -> N -> bool -> list N -> list N.
+Variable L : nat.
+Hypothesis Lpos : 0 < L.
+Hypothesis H_len : forall l o d b x, length (H l o d b x) = KS.
+
+Variable s : bstore.
+Variable lv : list (list N).
+Hypothesis Hshape : shape L lv.
+Hypothesis H_nc : nocoll H L lv.
+Let n := length lv.
+
+(* reader state st, having delivered D so far, is consistent with the honest leaves lv *)
+Definition inv (st : rst) (D : list N) : Prop :=
+  let i := r_idx st in
+  i <= n /\ r_todo st = keys_of_leaves H L i (skipn i lv) /\
+  match r_cur st with
+  | None => r_leaf st = [] /\ D = concat (firstn i lv) /\ (r_last st = true -> i = n) /\
+            (i = n -> r_last st = true \/ n = 0)
+  | Some rem => i < n /\ D = concat (firstn i lv) ++ r_leaf st /\
+                lookup (hkey H L i (nth i lv [])) s = Some (r_leaf st ++ rem)
+  end.
 
 Lemma leaf_is_last_or_full : forall i, i < n -> length (nth i lv []) <> L -> S i = n.
 Proof.
@@ -107,19 +107,22 @@ Proof.
       destruct (verify_leaf H L n i key (r_leaf st ++ out)) eqn:Ev; cbn [negb] in Hr;
         [|inversion Hr; subst; exact I].
       assert (Hd : r_leaf st ++ out = d).
-      { subst key. apply (verify_honest H L H_inj n i d); auto. intros Hne. now apply leaf_is_last_or_full. }
+      { subst key. apply (verify_honest H L lv n i d _ H_nc); auto.
+        - unfold d. apply nth_error_nth'. exact Hi.
+        - intros Hne. now apply leaf_is_last_or_full. }
       assert (HD' : D ++ acc ++ out = concat (firstn (S i) lv)).
       { rewrite app_assoc, HD, <- app_assoc, Hd. rewrite firstn_S_nth by assumption.
         rewrite concat_app. cbn. now rewrite app_nil_r. }
       destruct (Nat.eqb_spec (S i) n) as [Elast|Elast].
       * destruct (Nat.eqb (length out) k); inversion Hr; subst res st' orc'.
         -- unfold inv. cbn [r_idx r_todo r_cur r_leaf r_last tl].
-           split; [lia|]. split; [exact Hrest|]. split; [reflexivity|]. split; [exact HD'|auto].
+           split; [lia|]. split; [exact Hrest|]. split; [reflexivity|]. split; [exact HD'|]. split; [auto|]. intros _. left. reflexivity.
         -- rewrite HD', Elast. unfold n. now rewrite firstn_all.
       * apply (IH _ _ _ _ D) in Hr; [exact Hr|].
         unfold inv. cbn [r_idx r_todo r_cur r_leaf r_last tl].
-        split; [lia|]. split; [exact Hrest|]. split; [reflexivity|]. split; [exact HD'|].
-        intros Hf. discriminate.
+        split; [lia|]. split; [exact Hrest|]. split; [reflexivity|]. split; [exact HD'|]. split.
+        -- intros Hf. discriminate.
+        -- intros Hf. contradiction.
     + (* more of this leaf remains *)
       assert (Hinv' : inv {| r_todo := key :: rest; r_idx := i; r_cur := Some rem';
                              r_leaf := r_leaf st ++ out; r_last := r_last st |} (D ++ acc ++ out)).
@@ -148,7 +151,7 @@ Proof.
     + destruct Hinv as [_ [_ Hc]]. rewrite Ec in Hc. lia.
     + apply (read_loop_sound _ _ _ _ _ D) in Hr; [exact Hr|now rewrite app_nil_r].
   - destruct (r_last st) eqn:El.
-    + destruct Hinv as [_ [_ Hc]]. rewrite Ec in Hc. destruct Hc as [_ [HD Hl]].
+    + destruct Hinv as [_ [_ Hc]]. rewrite Ec in Hc. destruct Hc as [_ [HD [Hl _]]].
       inversion Hr; subst res. rewrite app_nil_r, HD, (Hl El). unfold n. now rewrite firstn_all.
     + destruct (Nat.eqb_spec n 0) as [En|En].
       * destruct Hinv as [Hi [_ Hc]]. rewrite Ec in Hc. destruct Hc as [_ [HD _]].
@@ -176,19 +179,17 @@ Variable H : N -> N -> N -> bool -> list N -> list N.
 Variable L : nat.
 Hypothesis Lpos : 0 < L.
 Hypothesis H_len : forall l o d b x, length (H l o d b x) = KS.
-Hypothesis H_inj : forall l o d b x o' d' b' x',
-  H l o d b x = H l o' d' b' x' -> o = o' /\ d = d' /\ b = b' /\ x = x'.
 
-Theorem read_seq_sound : forall s c bufs orc r,
+Theorem read_seq_sound : forall s c bufs orc r, nocoll H L (split_leaves L c) ->
   read_seq H L (tree_key H L c) s bufs orc = Ok r -> r = c.
 Proof.
-  intros s c bufs orc r Hr. unfold read_seq in Hr.
+  intros s c bufs orc r Hnc Hr. unfold read_seq in Hr.
   destruct (leaves_for_hash H L (tree_key H L c) s) as [ks|] eqn:El; [|discriminate].
-  apply (leaves_for_hash_sound H L Lpos H_len H_inj) in El. subst ks.
+  apply (leaves_for_hash_sound H L Lpos H_len) in El; [|exact Hnc]. subst ks.
   rewrite keys_length in Hr.
   transitivity (concat (split_leaves L c)); [|apply (split_leaves_concat L Lpos c)].
-  eapply (read_all_sound H L Lpos H_inj s (split_leaves L c) (split_shape L Lpos c)); [|exact Hr].
-  unfold inv. cbn. split; [lia|]. split; [reflexivity|]. split; [reflexivity|]. split; [reflexivity|discriminate].
+  eapply (read_all_sound H L Lpos s (split_leaves L c) (split_shape L Lpos c) Hnc); [|exact Hr].
+  unfold inv. cbn. split; [lia|]. split; [reflexivity|]. split; [reflexivity|]. split; [reflexivity|]. split; [discriminate|]. intros E. right. now rewrite <- E.
 Qed.
 
 End ReadSeqTop.
